@@ -21,7 +21,7 @@ def run(chk):
     chk.rule = ("op knn: Space::new/add_parts/knn on 5 box shapes (3 non-cubic), 5 grid cell sizes, 4 point families, k from 1 to n-1: every particle's result = its k nearest others in increasing exact distance "
                 "(ties within rounding either way), equal to Model/Knn; op sphere: Welzl / EPOS-6 / EPOS-6-of-spheres contain their input, Welzl radius = exact minimal radius (certificate-checked); "
                 "non-trivial = knn record with >= 2 grid cells per axis somewhere or sphere with >= 3 points; distinct by record")
-    chk.lean(['MVoro.Props.C20', 'MVoro.Proofs.Aux20', 'MVoro.Proofs.MEBProofs'], ['MVoro.Obl.Space'], ['Space'])
+    chk.lean(['MVoro.Props.C20', 'MVoro.Proofs.Aux20', 'MVoro.Proofs.MEBProofs', 'MVoro.Proofs.KnnCorrect'], ['MVoro.Obl.Space'], ['Space'])
     got = run_cells_op(chk, op='knn')
     if got is None:
         return
@@ -39,9 +39,14 @@ def run(chk):
         pts = [t.v3() for _ in range(n)]
         impl = [int(x) for x in r.res[1:]]
         m = model.get(r.id)
+        if m is not None and m[0] == 'GRIDBAD':
+            # the run-time certificate of KnnCorrect.gridOK_sound failed: the model's grid does not contain / partition its particles
+            chk.violation('model-cert', 'the grid built by the model fails the well-formedness certificate gridOK (record %d, %s)' % (r.id, r.family), None, key='gridok')
+            continue
         if m is None or m[0] != 'OK':
             chk.violation('driver', 'model produced no result for knn record %d' % r.id, None)
             continue
+        chk.extra_cov['grids_certified_wellformed'] = chk.extra_cov.get('grids_certified_wellformed', 0) + 1
         mod = [int(x) for x in m[1:]]
         if len(impl) != n * k or len(mod) != n * k:
             chk.violation('impl-vs-oracle', 'result has %d entries, expected %d x %d (record %d)' % (len(impl), n, k, r.id), rp, key='shape')
